@@ -28,6 +28,7 @@ MANIFEST = {
             "modelled not verified: the STL containers (node/iterator semantics as documented), PoolingAllocator",
     "technique": "Lean 4 refinement proof (invariant + simulation to a reference map, ghost recency stamps) + ASan differential run + "
                  "independent python reference",
+    "engine": "inproc",
 }
 
 U64 = (1 << 64) - 1
